@@ -35,25 +35,25 @@ CHECKS.update({
                   "alone (refinement to the abstract model Diff.adefs/ainp_step), so two histories with the same edits - in particular a history and its edits-only replay - answer every "
                   "request alike. Structural edits (cells/spaces/bases, creating/deleting references) belong to C03/C11-C13 and reach this layer only through the correspondence. "
                   "Finding D40 (fixed in /repo) was found while proving (2).",
-             note=EXEC_NOTE + "; theorems assume defs_ok (no call inside try: finding D20), refn_ok (by-name reads only of visible references); ghost flag s_reent=false (no formula re-entered itself, i.e. no DeepReferenceError cycle); depth-limit error excluded from the differential",
+             note=EXEC_NOTE + "; theorems assume refn_ok (by-name reads only of visible references; formulas may handle failures of callees since the repair of D20); ghost flag s_reent=false (no formula re-entered itself, i.e. no DeepReferenceError cycle); depth-limit error excluded from the differential",
              technique="Coq proof (coverage invariant by simulation of executor against a reads-instrumented spec; locality lemma; closure of reach; refinement of definitions+inputs to an abstract edit model) + vm_compute correspondence + edits-only differential", design="6/C02"),
  "C06": dict(text="Coq theorems: clearing/overwriting an element removes exactly the held elements reachable from it in the dependency graph (reach = reflexive-transitive closure, proved), "
                   "every read of a held element has an edge (coverage), other values and inputs untouched, clear() keeps inputs, assigned values are returned without running formulas, "
                   "set_value keeps the invariant under both recalc settings; after ANY operation (incl. reference changes, failed evaluations, recalculation) the user-assigned values are "
                   "exactly those the operation itself sets/removes (Diff.ainp_step); the edges are exact (edge m->j iff j's formula called m, C06_edge_iff_read), so the discarded set is "
                   "precisely the set of true dependents.",
-             note=EXEC_NOTE + "; defs_ok and s_reent=false hypotheses", technique="Coq proof (graph closure lemma + coverage invariant) + vm_compute correspondence + graph-descendant oracle", design="6/C06"),
+             note=EXEC_NOTE + "; s_reent=false hypothesis", technique="Coq proof (graph closure lemma + coverage invariant) + vm_compute correspondence + graph-descendant oracle", design="6/C06"),
  "C08": dict(text="Coq theorems: in every state reached by any history of evaluations, cache hits, failed evaluations and edits (C02's hypotheses): graph item nodes = held elements, edges join graph nodes, "
                   "inputs have no predecessors, uncached cells hold nothing; for every element holding a computed value the recorded predecessors are EXACTLY the reads of its formula by the "
                   "reads-instrumented specification (every read recorded: coverage, sim2_all; every predecessor a read: exactness, ex_all/step_Exa - cached elements called directly or through "
                   "uncached cells, the uncached cells passed through, references read by attribute in the reference graph); the graph is ACYCLIC (a read element is evaluated with strictly less "
                   "fuel than its reader). Model tied to mx preds/succs/precedents on every run; reference-interpreter oracle.",
-             note=EXEC_NOTE + "; defs_ok, refn_ok, s_reent=false hypotheses in the proved histories; precedents() of references read by name is checked by correspondence (cov_rd RName) only", technique="Coq proof (coverage invariant Cov and exactness invariant Exa through push/hit/pop/rollback and every edit; infinite-descent argument for acyclicity) + vm_compute correspondence + reference-interpreter oracle", design="6/C08"),
+             note=EXEC_NOTE + "; refn_ok, s_reent=false hypotheses in the proved histories; precedents() of references read by name is checked by correspondence (cov_rd RName) only", technique="Coq proof (coverage invariant Cov and exactness invariant Exa through push/hit/pop/rollback and every edit; infinite-descent argument for acyclicity) + vm_compute correspondence + reference-interpreter oracle", design="6/C08"),
  "C09": dict(text="Coq theorems: flipping the cached flag of any cells at any point keeps the invariant, so all later answers are the specification values; uncached cells hold no values; "
                   "invalidation reaches values computed through uncached cells (object-node coverage); the specification value does not depend on the flags (flags_irrelevant - false of the pinned "
                   "code, finding D33, repaired in /repo 008a3ab: the None check now applies to uncached cells too), hence two reachable states whose definitions differ only in flags answer every "
                   "request alike (depth-limit error excluded). Checked on every run by the two-flag-assignment differential.",
-             note=EXEC_NOTE + "; defs_ok, refn_ok, s_reent=false; 'accepts unhashable arguments when uncached' (Python hashing) is outside the model", technique="Coq proof (set_cached preserves Quiet; coverage of uncached cells; flag-insensitivity of the specification evaluator by induction on fuel) + vm_compute correspondence + flag-assignment differential", design="6/C09"),
+             note=EXEC_NOTE + "; refn_ok, s_reent=false; 'accepts unhashable arguments when uncached' (Python hashing) is outside the model", technique="Coq proof (set_cached preserves Quiet; coverage of uncached cells; flag-insensitivity of the specification evaluator by induction on fuel) + vm_compute correspondence + flag-assignment differential", design="6/C09"),
  "C17": dict(text="Coq theorems: from any state satisfying the executor invariant - hence after any sequence of earlier evaluations whatever they returned (escaped failures, failures caught by "
                   "formulas, no restriction on the formulas), and after any edit history admitted by C02's hypotheses - a failing top-level evaluation records exactly the specification's error "
                   "and exactly the specification's executing chain (Chain.spec_chain: a function of current definitions and inputs only; elements outermost first with the line of the next call "
